@@ -132,6 +132,8 @@ func main() {
 		return
 	}
 	switch *prop {
+	case "C06":
+		genC06(*out, *tier, rng)
 	case "C01", "C12", "C13", "C14", "C05", "C16", "C17", "C03":
 		genPrograms(*prop, *out, *tier, rng)
 	default:
